@@ -37,7 +37,7 @@ ASSUMPTIONS = [
 ]
 MANIFEST = {
     'level': 'exploration',
-    'technique': 'runtime differential monitor on real socket reads: framing of the real reader under enumerated/random TCP segmentations vs independent reference framer',
+    'technique': 'runtime differential monitor on real socket reads: framing of the real reader under enumerated/random TCP segmentations vs independent reference framer; the UPDATE stream cut into arbitrary TCP segments with real pauses and sent to the real exabgp process, judged on the JSON events of its real helper process',
     'text': 'Enumerates all 1- and 2-cut segmentations of short streams and samples longer ones; every tuple the real reader '
     'returns and every Notify Protocol.read_message raises is compared with the reference framing. Exhaustive only for the '
     'enumerated cut space of the short streams; exploration otherwise.',
@@ -451,6 +451,7 @@ def plan(tier, seed):
     m = 4 if tier == 'quick' else 16
     shards += [{'shard': 1000 + i, 'level3': True, 'cases': 12 if tier == 'quick' else 120} for i in range(m)]
     shards += [{'shard': 2000 + i, 'maxsize': True, 'part': i, 'of': 4} for i in range(4)]
+    shards += [{'shard': 3000 + i, 'daemon': True, 'part': i, 'messages': 120 if tier == 'quick' else 600} for i in range(4 if tier == 'quick' else 8)]
     return shards
 
 
@@ -587,7 +588,57 @@ def run_maxsize(desc):
     return res
 
 
+def run_daemon(desc):
+    """L4: the REAL daemon over real TCP.  The UPDATE stream of C02's daemon level is handed to the socket in segments cut at
+    random places (inside the marker, between the two length octets, one octet at a time, several messages glued), TCP_NODELAY
+    on, with pauses of 0-20 ms of real time between segments: the JSON events the helper receives are judged by C02's oracle
+    and must be as many as the messages sent"""
+    import socket
+    import time
+
+    from vlib.props import c02
+
+    r = random.Random(desc['seed'] * 104729 + desc['part'])
+    pending = bytearray()
+    stats = {'segments': 0, 'messages': 0}
+
+    def deliver(peer, raw, last):
+        peer.conn.setsockopt(socket.IPPROTO_TCP, socket.TCP_NODELAY, 1)
+        pending.extend(raw)
+        stats['messages'] += 1
+        if not last and r.random() < 0.3 and len(pending) < 20000:
+            return  # glued to the next message
+        while pending:
+            mode = r.random()
+            n = 1 if mode < 0.15 else r.choice([2, 15, 16, 17, 18, 19, 20]) if mode < 0.5 else r.randrange(1, 400)
+            if mode > 0.92:
+                n = len(pending)
+            peer.conn.sendall(bytes(pending[:n]))
+            del pending[:n]
+            stats['segments'] += 1
+            if r.random() < 0.25:
+                time.sleep(r.choice([0.0, 0.001, 0.005, 0.02]))
+
+    sub = c02.run_daemon(desc, deliver=deliver)
+    res = Result()
+    res.evaluations = sub.evaluations
+    for k, v in sub.classes.items():
+        res.classes['L4-' + k] = v
+    res.distinct = sub.distinct
+    res.info.update(sub.info) if hasattr(sub, 'info') else None
+    res.extra.update(sub.extra)
+    res.extra['L4_segments'] = [stats['segments']]
+    res.inconclusive += sub.inconclusive
+    for v in sub.violations:
+        res.violation(v['key'].replace('C02/', 'C06/L4-segmented:'), 'with the stream cut into segments: ' + v['what'], v['witness'], 'L4-daemon')
+    if stats['segments'] and not sub.violations and sub.classes.get('daemon'):
+        res.ok('L4-segmented-stream', None, stats['segments'])
+    return res
+
+
 def run_shard(desc):
+    if desc.get('daemon'):
+        return run_daemon(desc)
     if desc.get('maxsize'):
         return run_maxsize(desc)
     if desc.get('level3'):
@@ -668,7 +719,7 @@ def finish(merged, tier, seed):
     # class coverage promise: every level saw clean streams, marker faults, length faults and unknown types
     need = {}
     for cls, n in merged['classes'].items():
-        if cls.startswith('L3:'):
+        if cls.startswith('L3:') or cls.startswith('L4-'):
             continue
         level, fk, sk, mx = cls.split(':')
         group = 'clean' if fk == 'clean' else 'marker' if fk == 'marker' else 'type' if fk.startswith('type') else 'length'
@@ -676,6 +727,8 @@ def finish(merged, tier, seed):
         need[(level, 'max' + mx)] = need.get((level, 'max' + mx), 0) + n
     l3 = {c: n for c, n in merged['classes'].items() if c.startswith('L3:')}
     merged['extra']['level3_classes'] = l3
+    if not merged['classes'].get('L4-segmented-stream'):
+        merged['inconclusive'].append('L4 (segmented stream to the real daemon) never judged')
     if not any(c.startswith('L3:clean') for c in l3):
         merged['inconclusive'].append('L3 (live session with virtual delays) never judged a clean stream')
     missing = [f'{lv}:{g}' for lv in ('L1', 'L1g', 'L2', 'L2w') for g in ('clean', 'marker', 'type', 'length', 'max4096', 'max65535') if not need.get((lv, g))]
